@@ -9,6 +9,7 @@ import re  # For _build_url_with_path_vars
 from typing import TYPE_CHECKING, Any, List
 
 from pyopenapi_gen.core.utils import NameSanitizer
+from pyopenapi_gen.helpers.endpoint_utils import python_string_literal
 from pyopenapi_gen.core.writers.code_writer import CodeWriter
 
 if TYPE_CHECKING:
@@ -53,12 +54,12 @@ class EndpointUrlArgsGenerator:
 
             if p.get("required", False):
                 writer.write_line(
-                    f'    "{original_param_name}": DataclassSerializer.serialize({param_var_name}){line_end}'
+                    f"    {python_string_literal(original_param_name)}: DataclassSerializer.serialize({param_var_name}){line_end}"
                 )
             else:
                 # Using dict unpacking for conditional parameters
                 writer.write_line(
-                    f'    **({{"{original_param_name}": DataclassSerializer.serialize({param_var_name})}} '
+                    f"    **({{{python_string_literal(original_param_name)}: DataclassSerializer.serialize({param_var_name})}} "
                     f"if {param_var_name} is not None else {{}}){line_end}"
                 )
 
@@ -84,14 +85,14 @@ class EndpointUrlArgsGenerator:
 
             if p_info.get("required", False):
                 writer.write_line(
-                    f'    "{original_header_name}": DataclassSerializer.serialize({param_var_name}){line_end}'
+                    f"    {python_string_literal(original_header_name)}: DataclassSerializer.serialize({param_var_name}){line_end}"
                 )
             else:
                 # Conditional inclusion for optional headers
                 # This assumes that if an optional header parameter is None, it should not be sent.
                 # If specific behavior (e.g. empty string) is needed for None, logic would adjust.
                 writer.write_line(
-                    f'    **({{"{original_header_name}": DataclassSerializer.serialize({param_var_name})}} '
+                    f"    **({{{python_string_literal(original_header_name)}: DataclassSerializer.serialize({param_var_name})}} "
                     f"if {param_var_name} is not None else {{}}){line_end}"
                 )
 
